@@ -175,6 +175,8 @@ fn container_set(sub: &str, thorough: bool) -> Vec<(String, String, Comp, Packag
     // copy of its header at the end of the file)
     if sub == "c05" || sub == "c06" {
         v.push(("multi-zstd-prefixed".into(), "multi".into(), Comp::Zstd(5), Packaging::NoConcat, false));
+        // the same with a bare content pack file (low-level creators: no container pack around it)
+        v.push(("multi-none-lowlevel-prefixed".into(), "multi".into(), Comp::None, Packaging::NoConcat, false));
     }
     // concat of the separate files with the originals left beside it (the packs are reachable
     // both inside the file at hand and at their recorded locations)
@@ -208,10 +210,10 @@ fn build_set(base: &Path, sub: &str, thorough: bool) -> Result<Vec<ContainerDesc
         let dir = base.join(&name);
         std::fs::create_dir_all(&dir).map_err(|e| e.to_string())?;
         let l = shape(&shape_name);
-        let c = create_logical(&l, comp, packaging, &dir, "c")?;
+        let c = if name.contains("-lowlevel") { create_lowlevel(&l, comp, &dir, &[])? } else { create_logical(&l, comp, packaging, &dir, "c")? };
         let mut files: Vec<String> = c.files.iter().map(|f| f.file_name().unwrap().to_string_lossy().to_string()).collect();
         if name.ends_with("-prefixed") {
-            let cp = dir.join("c.jbkc");
+            let cp = dir.join(if name.contains("-lowlevel") { "pack1.jbkc" } else { "c.jbkc" });
             let pack = std::fs::read(&cp).map_err(|e| e.to_string())?;
             let mut v = jbkmc::gen::payload(4000, jbkmc::gen::Entropy::High, 4242);
             v.extend_from_slice(&pack);
@@ -507,7 +509,7 @@ fn enumerate(sub: &str, thorough: bool, set: &[Loaded]) -> Vec<Case> {
                 "c05" | "c06" if l.desc.name.ends_with("-prefixed") => {
                     // only the content pack file: the 64-byte copy of the header at its end, the
                     // header itself behind the foreign bytes, and the junction
-                    if l.desc.files[fi] != "c.jbkc" {
+                    if l.desc.files[fi] != "c.jbkc" && l.desc.files[fi] != "pack1.jbkc" {
                         continue;
                     }
                     let mut spots: Vec<usize> = (n.saturating_sub(64)..n).collect();
@@ -634,9 +636,19 @@ fn enumerate(sub: &str, thorough: bool, set: &[Loaded]) -> Vec<Case> {
                         t += tstep;
                     }
                     // every single-bit flip of the bytes that hold pack headers and their copies
-                    for pos in (0..n.min(128)).chain(n.saturating_sub(64)..n) {
-                        for bit in 1..7u8 {
-                            v.push(Case { container: ci, file: fi, alt: Alt::Xor { pos, mask: 1 << bit } });
+                    let mut spots: std::collections::BTreeSet<usize> = (0..n.min(128)).chain(n.saturating_sub(64)..n).collect();
+                    for r in &l.regions[fi] {
+                        if r.class.ends_with("header") || r.class.ends_with("footer") || r.class.ends_with("check-block") {
+                            spots.extend(r.start..r.end.min(n));
+                        }
+                    }
+                    // (release profile only: the debug profile repeats the other tiers, which hold the
+                    // arithmetic-overflow cases; this one is about unexpected field values)
+                    if !cfg!(debug_assertions) {
+                        for pos in spots {
+                            for bit in 1..7u8 {
+                                v.push(Case { container: ci, file: fi, alt: Alt::Xor { pos, mask: 1 << bit } });
+                            }
                         }
                     }
                     let pstep = if big { if thorough { 3 } else { 11 } } else { 1 };
@@ -1233,7 +1245,7 @@ fn main() {
     let (prop, rule) = match args.sub.as_str() {
         "c04" => ("C04", "every byte inside a pack's checked range or check block (classified by the independent decoder) x xor masks {01,80,ff}, every aligned 4/16-byte run zeroed, every covered byte inside a CRC block flipped WITH the block CRC recomputed (block map from the independent Python decoder: only the blake3 can notice), every 13th (thorough: 3rd) covered byte of the file-backed / mmapped packs altered in place AFTER the handles were opened and checked once, (thorough) pairs of covered positions on the small containers; oracle: Pack::check of that pack, ContainerPack::check of the file and Container::check each answer false or an error; non-trivial = the altered byte is covered by a checksum; distinct by (container,file,alteration)"),
         "c05" => ("C05", "every byte of every file x {xor 01, xor 80, xor ff, set 00, set ff}, zero/ff-filled ranges of length {4,64} (thorough {2,4,8,64} at every start, plus pairs inside 64-byte blocks), zeroed ranges of 5..64 bytes ending exactly at the end of every CRC block (data tail and CRC zeroed together) and starting at its start; oracle: node-by-node comparison of the full logical dump with the pristine dump (error nodes accepted; content hashes may differ only when check() is not true)"),
-        "c06" => ("C06", "every truncation length, every position x {01,80,ff}, every single-bit flip in the first 128 and last 64 bytes of every file, zeroed ranges {4,64,4096}, appended garbage {1,63,64,65,4096} x 4 kinds, 12 non-jubako inputs, files cut at the front, companion files removed; each case runs the whole reader (open, dump of every entry/value/content, three checks) in a worker process; oracle: no panic, no abort/signal, no hang"),
+        "c06" => ("C06", "every truncation length, every position x {01,80,ff}, every single-bit flip in every pack header, header copy and check block (and the first 128 / last 64 bytes of every file), zeroed ranges {4,64,4096}, appended garbage {1,63,64,65,4096} x 4 kinds, 12 non-jubako inputs, files cut at the front, companion files removed; each case runs the whole reader (open, dump of every entry/value/content, three checks) in a worker process; oracle: no panic, no abort/signal, no hang"),
         other => {
             eprintln!("unknown subcommand {other}");
             std::process::exit(2)
